@@ -4,10 +4,13 @@
       sfmodel gsm dec        one data region per stdin line (hex, 33-byte frames; a short last frame is zero-padded)
                              -> per frame 160 shorts as 4-digit hex, frames separated by one blank; `x` = bad magic
       sfmodel gsm dec49      the same for 65-byte WAV49 blocks -> 320 shorts per block
+      sfmodel gsm enc|enc49  one line of 4-digit hex shorts per stdin line -> hex bytes of the closed file's data region
       sfmodel gsm script     scripts:
 
       == <name>
       codec gsm wav=<0|1> [normF=0|1 normD=0|1 variant=sse2|lrint]
+      w <ty> <i|f> <count> <hex items>      -> ret=<n> err=0
+      close                                 -> data=<hex>     the blocks gsm610_close leaves in the data region
       load <hex> dlen=<n> [hdr=<n>]         -> frames=<n>     read handle; hex = the file from the data offset to its end,
                                                               dlen = psf->datalength, hdr = numSampleFrames (AIFF)
       r <ty> <i|f> <count>                  -> ret=<n> err=0 data=<hex of the cells written, then a5 fill>
@@ -37,6 +40,7 @@ structure DS where
   file : List Byte := []
   blocks : Nat := 0
   rh   : Option Block.RHandle := none
+  ws   : Option (Block.WState State) := none
   sticky : Bool := false
 
 def fillA5 (ty : Ty) (n : Nat) : String := String.join (List.replicate (n * ty.bits / 8) "a5")
@@ -66,6 +70,18 @@ def runLine (ds : DS) (line : String) : DS × Option String :=
       ({ ds with rh := some h' }, some s!"ret={ret} err={err} data={showItems ty d ++ fillA5 ty (n - d.length)}")
     | _, _ => (ds, some "bad-op")
   | ["seek", _, _] => ({ ds with sticky := true }, some "ret=-1 err=E")
+  | ["w", tyS, _, nS, hex] =>
+    match tyOf tyS with
+    | none => (ds, some "bad-op")
+    | some ty =>
+      let n := nS.toNat!
+      let vs := (parseItems ty hex).take n
+      let st := ds.ws.getD (writeInit ds.cfg)
+      ({ ds with ws := some (writeCall ds.cfg ds.conv ty st vs) }, some s!"ret={n} err=0")
+  | ["w", _, _, _] => (ds, some "ret=0 err=0")
+  | ["close"] =>
+    let st := ds.ws.getD (writeInit ds.cfg)
+    ({ ds with ws := none }, some ("data=" ++ hexBytes (closeBytes ds.cfg st)))
   | ["skip"] => (ds, some "skipped")
   | _ => (ds, some "bad-op")
 
@@ -86,6 +102,18 @@ partial def loop (h : IO.FS.Stream) (ds : DS) : IO Unit := do
 def cmd (args : List String) : IO UInt32 := do
   match args with
   | ["script"] => loop (← IO.getStdin) {}; return 0
+  | ["enc"] =>
+    for line in (← readLines) do
+      let xs := (parseHexItems 4 line).map (sext 16)
+      let st := writeCall ⟨false⟩ {} .s16 (writeInit ⟨false⟩) xs
+      IO.println (hexBytes (closeBytes ⟨false⟩ st))
+    return 0
+  | ["enc49"] =>
+    for line in (← readLines) do
+      let xs := (parseHexItems 4 line).map (sext 16)
+      let st := writeCall ⟨true⟩ {} .s16 (writeInit ⟨true⟩) xs
+      IO.println (hexBytes (closeBytes ⟨true⟩ st))
+    return 0
   | ["dec"] =>
     for line in (← readLines) do
       let bytes := parseHexBytes line
